@@ -534,6 +534,14 @@ def repr_values(condition: Callable[..., bool], lambda_inspection: Optional[Cond
             if name in condition_parameters
         }
 
+        # The parameters of the condition which were not supplied take their default values.
+        for name, parameter in condition_parameters.items():
+            if (
+                name not in condition_kwargs
+                and parameter.default is not inspect.Parameter.empty
+            ):
+                condition_kwargs[name] = parameter.default
+
         variable_lookup = collect_variable_lookup(condition=condition, resolved_kwargs=condition_kwargs)
 
         recompute_visitor = icontract._recompute.Visitor(variable_lookup=variable_lookup)
